@@ -39,6 +39,18 @@ async def drive(c, tier, scripts, rnd):
             ev = await relayrun.run_batch(dep, spec, vlib.seed() * 1000 + 500 + ci, fid0=1000)
             batches.append(ev)
             c.add("random_scripts", len(spec))
+            # HalfCloseComplete: one side finishes sending and goes on reading; the other answers after it has seen that end
+            spec = [(relayrun.halfclose_script(rnd, big=(100000, 400000) if tier == "quick" else (100000, 2000000)), "ok",
+                     KINDS[(i + ci) % 3], rnd.choice([1 << 16, 4096])) for i in range(4 if tier == "quick" else 12)]
+            ev = await relayrun.run_batch(dep, spec, vlib.seed() * 1000 + 700 + ci, fid0=2000)
+            batches.append(ev)
+            c.add("halfclose_scripts", len(spec))
+            # back-pressure: slow reader, far more data than the buffers hold, the writer closes at once
+            if tier != "quick" or ci < 5:
+                spec = [(relayrun.pressure_script(rnd), "ok", KINDS[(i + ci) % 3], 1 << 16) for i in range(2 if tier == "quick" else 4)]
+                ev = await relayrun.run_batch(dep, spec, vlib.seed() * 1000 + 800 + ci, fid0=3000, end_cap=20.0)
+                batches.append(ev)
+                c.add("pressure_scripts", len(spec))
         finally:
             dep.stop()
     c.add("replayed_scripts", used)
@@ -61,7 +73,9 @@ def run(tier):
     c.assumptions += [
         "loopback only (no loss, no MTU), IPv4 only as the README says; domain targets resolve through /etc/hosts (localhost)",
         "TcpRelay's timing assumption (maximal progress): the 2 s grace timer fires only when kernels and tasks have nothing left to do",
-        "completeness towards a side is demanded only while that side has not closed and no reset-producing close happened (RelayAbs Close rules)",
+        "completeness towards a side is demanded while that side has not closed or has only finished sending (half-close), no "
+        "reset-producing close happened (RelayAbs Close rules) and - for a half-closed side - the flow was not silent for longer than "
+        "the close grace (Lapse: logged by the observer after 1 s without any event on the flow, half of the relay's 2 s)",
         "bounded waits in the observer: 20 s for 'everything written has arrived', 6 s for an end to be passed on, 6 s for a dial",
     ]
     return c.finish()
